@@ -11,6 +11,7 @@ import (
 	"net/url"
 	"os"
 	"strings"
+	"sync/atomic"
 	"testing"
 
 	"github.com/vulcand/oxy/v2/forward"
@@ -99,6 +100,7 @@ type spec struct {
 	resp      []hdr
 	// tlsBackend: the chosen backend is an https:// URL (plain front, re-encryption behind)
 	tlsBackend bool
+	upgrade    bool // the client asks for a protocol switch (Connection: Upgrade + Upgrade header)
 }
 
 func genSpec(t *rapid.T) *spec {
@@ -137,6 +139,24 @@ func genSpec(t *rapid.T) *spec {
 	default:
 		s.peer = fmt.Sprintf("[fe80::%x%%eth%d]:%d", rapid.IntRange(1, 65535).Draw(t, "p6z"), rapid.IntRange(0, 2).Draw(t, "zone"), rapid.IntRange(1024, 65535).Draw(t, "pp"))
 	}
+	if rapid.IntRange(0, 5).Draw(t, "upgrade") == 0 { // a protocol-switch request
+		kept := s.headers[:0]
+		for _, h := range s.headers { // one Upgrade header only: the proxy re-announces the first value
+			if !strings.EqualFold(h.k, "Upgrade") {
+				kept = append(kept, h)
+			}
+		}
+		s.headers = append(kept, hdr{"Upgrade", "verifproto"})
+		line := []string{"Upgrade"}
+		if rapid.Bool().Draw(t, "upgradeNames") {
+			line = append(line, rapid.SampledFrom(fwdNames[:5]).Draw(t, "upgradeNamed"))
+		}
+		if rapid.Bool().Draw(t, "upgradeFirst") {
+			line[0], line[len(line)-1] = line[len(line)-1], line[0]
+		}
+		s.connLines = append(s.connLines, line)
+		s.upgrade = true
+	}
 	s.tls = rapid.Bool().Draw(t, "tls")
 	s.passHost = rapid.Bool().Draw(t, "passHost")
 	s.tlsBackend = rapid.IntRange(0, 3).Draw(t, "tlsBackend") == 0
@@ -173,6 +193,7 @@ func (s *spec) raw() string {
 	return b.String()
 }
 
+var caseCounter atomic.Int64
 var backend *sim.Backend
 
 // DialTLSContext hands back a plain connection: the raw backend then also stands in for a
@@ -232,6 +253,8 @@ func check(fatalf func(string, ...any), s *spec) (discarded bool) {
 	}
 	be.Script = func(*sim.Captured) []sim.Step { return []sim.Step{{Write: resp}} }
 	before := len(be.Requests())
+	caseID := fmt.Sprint(caseCounter.Add(1))
+	req.Header.Set("X-Verif-Case", caseID) // ties the backend's capture to this case
 	req.RemoteAddr = s.peer
 	if s.tls {
 		req.TLS = &tls.ConnectionState{}
@@ -251,11 +274,17 @@ func check(fatalf func(string, ...any), s *spec) (discarded bool) {
 	bad := func(f string, a ...any) {
 		fatalf("%s\nclient request:\n%s\npeer=%s tls=%v passHost=%v httpsBackend=%v", fmt.Sprintf(f, a...), strings.ReplaceAll(raw, "\r\n", "\n"), s.peer, s.tls, s.passHost, s.tlsBackend)
 	}
-	if len(reqs) != before+1 {
-		bad("the backend received %d requests for one client request (proxy status %d)", len(reqs)-before, rec.Status())
+	var mine []*sim.Captured
+	for _, c := range reqs[before:] {
+		if v := c.Get("X-Verif-Case"); len(v) == 1 && v[0] == caseID {
+			mine = append(mine, c)
+		}
+	}
+	if len(mine) != 1 {
+		bad("the backend received %d requests for one client request (proxy status %d)", len(mine), rec.Status())
 		return
 	}
-	got := reqs[len(reqs)-1]
+	got := mine[0]
 	// 1. request line
 	want := s.target
 	if s.absolute {
@@ -287,12 +316,15 @@ func check(fatalf func(string, ...any), s *spec) (discarded bool) {
 		}
 	}
 	for _, h := range got.Headers {
+		if s.upgrade && (strings.EqualFold(h[0], "Connection") && strings.EqualFold(h[1], "Upgrade") || strings.EqualFold(h[0], "Upgrade") && h[1] == "verifproto") {
+			continue // a protocol switch is re-announced to the backend by the proxy itself
+		}
 		if isHop(h[0]) {
 			bad("hop-by-hop header %q: %q reached the backend", h[0], h[1])
 		}
 	}
 	for name := range named {
-		if isFwd(name) || name == "Close" || name == "Keep-Alive" {
+		if isFwd(name) || name == "Close" || name == "Keep-Alive" || name == "Upgrade" {
 			continue
 		}
 		for _, v := range clientHeader.Values(name) {
